@@ -136,7 +136,7 @@ type History struct {
 }
 
 // Known lists the method names the world's assigner resolves.
-var Known = map[string]bool{"ret": true, "gate": true, "err": true, "raw": true, "cbgate": true, "notegate": true, "svc.ret": true, "rpc.user": true}
+var Known = map[string]bool{"rpc.": true, "ret": true, "gate": true, "err": true, "raw": true, "cbgate": true, "notegate": true, "svc.ret": true, "rpc.user": true}
 
 type world struct {
 	t     *testing.T
@@ -274,7 +274,7 @@ func (w *world) assign(ctx context.Context, method string) jrpc2.Handler {
 		}()
 		tok := Token{K: p.K, Inv: inv}
 		switch method {
-		case "ret", "svc.ret", "rpc.user":
+		case "ret", "svc.ret", "rpc.user", "rpc.":
 			return tok, nil
 		case "err":
 			ret = fmt.Sprintf("err:%d", p.C)
